@@ -172,7 +172,7 @@ def apply(m, root):
 
 
 def worker(wid, jobs, outpath):
-    scratch = "/var/tmp/verif-mut-%d-repo" % wid
+    scratch = "/var/tmp/verif-mut-%s-%d-repo" % (os.environ.get("MUT_TAG", "a"), wid)
     shutil.rmtree(scratch, ignore_errors=True)
     sh("rsync -a %s/ %s/" % (REPO, scratch))
     env = dict(os.environ, PYTHONPATH=scratch, PYTHONHASHSEED="0", PYTHONDONTWRITEBYTECODE="1")
@@ -217,7 +217,7 @@ def main():
     outpath, nw, maxm = sys.argv[1], int(sys.argv[2]), int(sys.argv[3])
     seed = int(sys.argv[4]) if len(sys.argv) > 4 else 0
     filt = sys.argv[5] if len(sys.argv) > 5 else ""
-    ms = [m for m in sites() if filt in m["file"] + ":" + m["scope"]]
+    ms = [m for m in sites() if re.search(filt, m["file"] + ":" + m["scope"])]
     # skip test-irrelevant scopes: module-level tables, logging, main()
     ms = [m for m in ms if m["scope"] and not re.search(r"^main$|__str__|__repr__", m["scope"])]
     random.Random(seed).shuffle(ms)
